@@ -241,6 +241,24 @@ def gen_indexers(rng, n, big=False):
                         'data': [[float(rng.choice(VALS)) for _ in range(n)] for _ in phs]})
     return ixs
 
+def gen_mat_source_op(rng, j, cur, n):
+    """material arriving from a multi-phase indexer: 1-3 phases, preferably several the receiver lacks"""
+    missing = [ph for ph in ['g', 'l', 's', 'L', 'S'] if ph not in cur[j]]
+    k = rng.randint(1, 3)
+    if len(missing) >= 2 and rng.random() < 0.7:
+        sp = rng.sample(missing, min(len(missing), max(2, k)))
+        if rng.random() < 0.4: sp = sorted(set(sp + [rng.choice(cur[j])]))
+    else:
+        sp = rng.sample(['g', 'l', 's', 'L', 'S'], k)
+    kind = rng.choice(['mixm', 'copym'])
+    src = [[ph, [float(rng.choice(VALS)) for _ in range(n)]] for ph in sorted(sp)]
+    old = cur[j]
+    if kind == 'mixm':
+        if any(ph not in old and ph.swapcase() not in old for ph in sp): cur[j] = sorted(set(old) | set(sp))
+    elif old != sorted(sp) and [x.lower() for x in old] != [x.lower() for x in sorted(sp)]:
+        cur[j] = sorted(set(old) | set(sp))
+    return [kind, j, src]
+
 def small_case(rng):
     malformed = rng.random() < 0.3
     chems = gen_package(rng, tidy=not malformed and rng.random() < 0.7)
@@ -295,6 +313,9 @@ def small_case(rng):
             ph = rng.choice(['g', 'l', 's', 'L', 'S'])
             ops.append([rng.choice(['mixp', 'mixp', 'copyp']), j, ph, [float(rng.choice(VALS)) for _ in range(n)]])
             if ph not in cur[j] and ph.swapcase() not in cur[j]: cur[j] = sorted(cur[j] + [ph])
+        elif r < 0.975 and cur:
+            j = rng.choice(sorted(cur))
+            ops.append(gen_mat_source_op(rng, j, cur, n))
         else:
             ops.append(['index', gen_chem_key(rng, names, groups, True)])
     return {'chems': chems, 'cops': cops, 'ixs': ixs, 'ops': ops}
@@ -412,7 +433,13 @@ def corpus_expand():
     ops += [['set', 1, kT([kS('s'), kS('B_')]), ['n', 7.0]], ['set', 0, kT([kS('l'), kS('B_')]), ['n', 8.0]],
             ['get', 2, kT([kS('s'), kS('B_')])], ['copyp', 1, 'L', [1.0, 2.0, 0.0, 4.0]], ['get', 1, kS('l')], ['get', 1, kS('L')],
             ['copyp', 1, 'g', [0.5, 0.0, 0.0, 4.0]], ['get', 1, kT([kS('s'), kS('A_')])], ['get', 2, kT([kS('s'), kS('A_')])],
-            ['get', 0, kT([kS('s'), kS('A_')])], ['mixp', 2, 'S', [1.0, 1.0, 1.0, 1.0]], ['get', 2, kS('s')]]
+            ['get', 0, kT([kS('s'), kS('A_')])], ['mixp', 2, 'S', [1.0, 1.0, 1.0, 1.0]], ['get', 2, kS('s')],
+            # several phases at once: the jointly added rows are separate objects
+            ['mixm', 2, [['L', [0.0, 0.0, 3.0, 0.0]], ['g', [0.0, 2.0, 0.0, 0.0]], ['l', [1.0, 0.0, 0.0, 0.0]]]],
+            ['set', 2, kT([kS('g'), kS('A_')]), ['n', 21.0]], ['get', 2, kT([kS('L'), kS('A_')])], ['get', 2, kS('A_')],
+            ['copym', 0, [['L', [1.0, 1.0, 1.0, 1.0]], ['S', [2.0, 0.0, 2.0, 0.0]]]], ['set', 0, kT([kS('S'), kS('B_')]), ['n', 5.0]],
+            ['get', 0, kT([kS('L'), kS('B_')])], ['get', 0, kS('B_')], ['copym', 1, [['L', [1.0, 0.0, 0.0, 0.0]], ['s', [0.0, 4.0, 0.0, 0.0]]]],
+            ['get', 1, kS('l')]]
     rows = [[1.0, 2.0, 3.0, 0.5], [10.0, 20.0, 30.0, 0.25]]
     return {'chems': _chems4(), 'cops': [], 'ops': ops,
             'ixs': [{'kind': 'm', 'stream': False, 'phases': ['l', 's'], 'data': rows},
@@ -562,6 +589,16 @@ def pydata(d, chems=None, mass=False):
     # what src[...] / src.by_mass()[...] return, taken without a look-up (the harness must not touch the caches)
     return src.by_mass().data if mass else src.data
 
+def material_source(chems, src):
+    """a multi-phase indexer of the same chemicals holding the rows src = [[phase, values], ...]"""
+    ix = env()['ix']
+    m = ix.MolarFlowIndexer.blank(tuple(p for p, _ in src), chems)
+    for p, vals in src:
+        row = m.data.rows[m._phases.index(p)]
+        for i, v in enumerate(vals):
+            if v: row.dct[i] = float(v)
+    return m
+
 def phase_source(chems, phase, vals):
     ix = env()['ix']
     g = ix.ChemicalMolarFlowIndexer.blank(phase, chems)
@@ -599,6 +636,13 @@ def run_ops(case, chems, ixs, on_op=None, seen_phases=None):
             g = phase_source(chems, op[2], op[3])
             if kind == 'mixp': o.mix_from([o, g])
             else: o.copy_like(g)
+            ob = {'ph': list(o._phases), 'd': dense(o, n)}
+            seen_phases.add(tuple(o._phases))
+        elif kind in ('mixm', 'copym'):
+            o = ixs[op[1]]
+            m = material_source(chems, op[2])
+            if kind == 'mixm': o.mix_from([o, m])
+            else: o.copy_like(m)
             ob = {'ph': list(o._phases), 'd': dense(o, n)}
             seen_phases.add(tuple(o._phases))
         elif kind in ('set', 'setm'):
@@ -725,6 +769,9 @@ def cop_term(op):
     if k == 'setm': return f'(OSetMass {cnat(op[1])} {ckey(op[2])} {cdata(op[3])})'
     if k == 'mixp': return f'(OMixPhase {cnat(op[1])} {cstr(op[2])} {qlist(op[3])})'
     if k == 'copyp': return f'(OCopyPhase {cnat(op[1])} {cstr(op[2])} {qlist(op[3])})'
+    if k in ('mixm', 'copym'):
+        src = clist([f'({cstr(p_)}, {qlist(v)})' for p_, v in sorted(op[2])])
+        return f'({"OMixMat" if k == "mixm" else "OCopyMat"} {cnat(op[1])} {src})'
     raise ValueError(k)
 
 def cobs(ob):
@@ -946,7 +993,8 @@ def probe_case(case, index, comps):
     # two indexers of one phase set; one gains a phase, then the other
     ops += [['get', 1, kT([kS('l'), idk])], ['get', 2, kT([kS('l'), idk])], ['mixp', 1, 's', list(base)],
             ['set', 2, kT([kS('l'), kS(ids[0])]), ['n', 9.0]], ['set', 1, kT([kS('l'), kS(ids[0])]), ['n', 11.0]],
-            ['copyp', 2, 'S', list(base)], ['get', 1, kT([kS('s'), idk])], ['get', 2, kT([kS('s'), idk])]]
+            ['copyp', 2, 'S', list(base)], ['get', 1, kT([kS('s'), idk])], ['get', 2, kT([kS('s'), idk])],
+            ['mixm', 1, [['L', list(base)], ['S', [2 * v for v in base]]]], ['copym', 2, [['L', list(base)], ['s', [2 * v for v in base]]]]]
     return dict(case, ixs=ixs, ops=ops, probe=True)
 
 def oracle(case):
@@ -992,6 +1040,24 @@ def oracle_core(case):
                         f'but the molar data times MW are {(rows_of(o) * MW).tolist()}')
         return None
 
+    def independent_rows(num, what, o):
+        """a write through (phase, ID) changes that entry only -- in particular not the same entry of another row"""
+        ID = case['chems'][0]['ID']
+        for r, ph in enumerate(o._phases):
+            if ph in index: continue
+            before = rows_of(o)
+            try:
+                o[ph, ID] = 977.0 + r
+            except Exception as e:
+                return f'row-frame: op {num}: after {what}: writing ({ph!r}, {ID!r}) raised {type(e).__name__}: {e}'
+            exp = before.copy(); exp[r, 0] = 977.0 + r
+            got = rows_of(o)
+            if not close(got, exp):
+                return (f'row-frame: op {num}: after {what}: indexer[{ph!r}, {ID!r}] = {977.0 + r} turned the data (phases {o._phases}) '
+                        f'into {got.tolist()} instead of {exp.tolist()}')
+            o[ph, ID] = float(before[r, 0])
+        return None
+
     def sweep(num, what):
         """phase-qualified reads on EVERY multi-phase indexer, interleaved, against its own rows"""
         ids = tuple(c['ID'] for c in case['chems'])
@@ -1020,6 +1086,11 @@ def oracle_core(case):
             return f'names:{type(e).__name__}: declared name {nm!r} does not resolve: {e}'
         if isinstance(v, int):
             if got != v: return f'names:wrong-position: name {nm!r} of chemical {v} resolves to {got}'
+    # a name carried by two chemicals belongs to neither: it must not resolve (unless an alias/group call defined it later)
+    for nm in sorted(set(x_ for c in case['chems'] for x_ in c['names'] if x_)):
+        owners = [i for i, c in enumerate(case['chems']) if nm in c['names']]
+        if len(owners) > 1 and nm not in index and nm in chems._index:
+            return f'names:ambiguous: name {nm!r} is shared by chemicals {owners} but resolves to {chems._index[nm]}'
     ixs = build_indexers(case, chems)
     ix = env()['ix']
     for num, op in enumerate(case['ops']):
@@ -1036,6 +1107,33 @@ def oracle_core(case):
             expected = spec_read(index, arr, phases, key)
             tgt = o.by_mass() if mass else o          # the view is created here at the latest
             nm_ = 'indexer.by_mass()' if mass else 'indexer'
+        if kind in ('mixm', 'copym'):
+            o = ixs[op[1]]
+            before = rows_of(o); old = list(o._phases); src = sorted(op[2]); sp = [p_ for p_, _ in src]
+            if kind == 'mixm':
+                grow = any(spec_phase(old, p_) is None for p_ in sp)
+            else:
+                grow = not (old == sp or [x_.lower() for x_ in old] == [x_.lower() for x_ in sp])
+            new = sorted(set(old) | set(sp)) if grow else old
+            exp = np.zeros((len(new), n))
+            if kind == 'mixm':
+                for k_, q_ in enumerate(old): exp[new.index(q_)] = before[k_]
+            for p_, v_ in src:
+                r = spec_phase(new, p_)
+                if kind == 'mixm': exp[r] += np.array(v_, float)
+                else: exp[r] = np.array(v_, float)
+            what = f'indexer {op[1]} (phases {tuple(old)}) received material in phases {tuple(sp)} ({"mix_from" if kind == "mixm" else "copy_like"})'
+            try:
+                m = material_source(chems, op[2])
+                if kind == 'mixm': o.mix_from([o, m])
+                else: o.copy_like(m)
+            except Exception as e:
+                return f'phase-rows: op {num}: {what} raised {type(e).__name__}: {e}'
+            if list(o._phases) != new or not close(rows_of(o), exp):
+                return f'phase-rows: op {num}: {what}: phases {o._phases}, rows {rows_of(o).tolist()} instead of {new}, {exp.tolist()}'
+            msg = independent_rows(num, what, o) or sweep(num, what) or both_bases(num, what)
+            if msg: return msg
+            continue
         if kind in ('mixp', 'copyp'):
             o = ixs[op[1]]
             before = rows_of(o); old = list(o._phases); ph = op[2]; vals = np.array(op[3], float)
@@ -1053,7 +1151,7 @@ def oracle_core(case):
                 return f'phase-rows: op {num}: {what} raised {type(e).__name__}: {e}'
             if list(o._phases) != new or not close(rows_of(o), exp):
                 return f'phase-rows: op {num}: {what}: phases {o._phases}, rows {rows_of(o).tolist()} instead of {new}, {exp.tolist()}'
-            msg = sweep(num, what) or both_bases(num, what)
+            msg = independent_rows(num, what, o) or sweep(num, what) or both_bases(num, what)
             if msg: return msg
             continue
         if kind == 'get':
